@@ -31,6 +31,12 @@ func runMatrix(t *testing.T, prop, mode string, protos []string, kinds, listKind
 	total := 0
 	for _, run := range c05Configs(protos) {
 		cells := enumCells(run, kinds, listKinds, int(ev.Seed()%1000), maxPerList)
+		if mode == "C05" {
+			cells = append(cells, enumCommitCells(run, int(ev.Seed()%1000))...)
+			for m := range run.Members {
+				cells = append(cells, faultCase{Run: run, F: faultSpec{Deviator: m, Kind: "wrong-secret", Field: fieldRef{"Xi", -1}, MsgType: "(key data)"}})
+			}
+		}
 		for _, c := range cells {
 			total++
 			if total%shards != shard {
